@@ -162,6 +162,8 @@ def explore(pid, tier, seed, verdict, full=True):
     lines.append("TW %d" % nth)
     for i in range((3 if tier == "quick" else 12) if full else 1):
         lines.append("T %d %d" % (nth, 40 if tier == "quick" else 150))
+    if full:
+        lines.append("H 8 %d" % (20000 if tier == "quick" else 400000))
     bf = os.path.join(work, "behaviours.txt")
     open(bf, "w").write("\n".join(lines) + "\n")
     out = os.path.join(work, "t.0.ndjson")
@@ -248,7 +250,7 @@ def explore(pid, tier, seed, verdict, full=True):
                     key = k
                     fac = res_bad = False
                 relevant = (pid == "C20" and ((k == "Attack" and fac) or k in ("SFacEnter", "LStep"))) or \
-                           (pid == "C13" and ((k == "Attack" and res_bad) or k in ("LStep", "SRet", "SFacEnter"))) or \
+                           (pid == "C13" and ((k == "Attack" and res_bad) or k in ("LStep", "SRet", "SFacEnter", "SHammer"))) or \
                            (pid == "C14" and k in ("LStep", "SRet", "SFacEnter"))      # the name cache is invisible
                 if pid == "C14":
                     key = "cache:" + key
